@@ -54,6 +54,22 @@ Theorem C15_block : forall keys oc col2 group j,
 Proof. exact block_content. Qed.
 Print Assumptions C15_block.
 
+(* losslessness (the un-pivot direction): when (first, second) identifies the remaining columns - the query is grouped
+   by exactly these two columns - every un-pivoted row is found again in the pivoted row of its first value, in the block of
+   its second value *)
+Theorem C15_lossless : forall ncols col1 col2 rows r,
+  let oc := other_cols ncols col1 col2 in
+  let keys := pivot_keys col2 rows in
+  let groups := groupby col1 None (isort (on (cell col1) val_le) rows) in
+  (forall r1 r2, In r1 rows -> In r2 rows ->
+     val_eq (cell col1 r1) (cell col1 r2) = true -> val_eq (cell col2 r1) (cell col2 r2) = true ->
+     other oc r1 = other oc r2) ->
+  In r rows ->
+  exists kg, In kg groups /\ val_eq (cell col1 r) (fst kg) = true
+             /\ nth (index_of (cell col2 r) keys) (blocks keys oc col2 (snd kg)) [] = other oc r.
+Proof. exact pivot_lossless. Qed.
+Print Assumptions C15_lossless.
+
 Example C15_example :
   pivot 3 0 1 [[VInt 2; VStr [98%Z]; VInt 20]; [VInt 1; VStr [97%Z]; VInt 10]; [VInt 1; VStr [98%Z]; VInt 11]; [VNull; VStr [97%Z]; VInt 5]]
   = ([None; Some (VStr [97%Z], 2); Some (VStr [98%Z], 2)],
